@@ -189,6 +189,9 @@ func (c *counters) add(k string, n int) {
 // goroutines of Task.load and the insert goroutines of Task.insert
 func scenarioLoad(r *rng, rounds int, cn *counters, alsoInsert bool) {
 	for round := 0; round < rounds; round++ {
+		if !alsoInsert {
+			filteredLoad(r, cn)
+		}
 		conc := r.rng(2, 8)
 		batch := conc * r.rng(1, 4)
 		t, err := shovel.VerifRaceNewTask(
@@ -275,6 +278,7 @@ func scenarioGet(r *rng, rounds int, cn *counters) {
 func scenarioPipeline(r *rng, rounds int, cn *counters) {
 	for round := 0; round < rounds; round++ {
 		stepWithCounter(cn)
+		filteredLoad(r, cn)
 		nd := newNode(50)
 		c := jrpc2.New(nd.url(), nd.url()+"/b").WithMaxReads(r.rng(2, 5)).WithPollDuration(time.Millisecond)
 		ntasks := r.rng(2, 5)
@@ -373,6 +377,38 @@ func runTask(t *shovel.Task, c *jrpc2.Client, batch uint64, cn *counters, plan s
 		cn.add("converged "+plan, 1)
 		cn.add("rows", int(nr))
 	}
+}
+
+// the FIRST load of a fresh task whose integration filters log_addr on five
+// addresses given in descending order, on a logs-only plan (no header fetch
+// precedes eth_getLogs), concurrency 3..5, a batch of two blocks per
+// partition: every partition goroutine builds its eth_getLogs request from
+// the task's one glf.Filter (Task.load hands &t.filter to all of them).
+func filteredLoad(r *rng, cn *counters) {
+	nd := newNode(60)
+	defer nd.close()
+	c := jrpc2.New(nd.url()).WithPollDuration(time.Hour)
+	ig := plan{"logs-only+addr", true, []string{"block_num", "tx_hash", "log_idx"}}.integration()
+	var addrs []string
+	for i := 5; i >= 1; i-- {
+		addrs = append(addrs, fmt.Sprintf("0x%040x", i*0x1111))
+	}
+	ig.Block = append(ig.Block, dig.BlockData{Name: "log_addr", Column: "log_addr", Filter: dig.Filter{Op: "contains", Arg: addrs}})
+	ig.Table.Columns = append(ig.Table.Columns, wpg.Column{Name: "log_addr", Type: "bytea"})
+	conc := r.rng(3, 5)
+	t, err := shovel.VerifRaceNewTask(
+		shovel.WithSource(c),
+		shovel.WithConcurrency(conc, 2*conc),
+		shovel.WithIntegration(ig),
+	)
+	must(err)
+	h, err := c.Hash(context.Background(), nd.url(), 20)
+	must(err)
+	if _, err := t.VerifRaceLoad(context.Background(), nd.url(), h, 21, uint64(2*conc)); err != nil {
+		cn.add("filtered load error", 1)
+		return
+	}
+	cn.add(fmt.Sprintf("filtered first load conc=%d", conc), 1)
 }
 
 // one step the way Task.Converge runs it: a context carrying the step's own
